@@ -11,7 +11,8 @@ CONSTANTS MaxVal,     \* lamb ranks 0..MaxVal; LambMin = 0, LambMax = MaxVal
           MaxIter,    \* state constraint on iterations
           MaxK,       \* bound on Newton steps of the exact controller in the model
           MaxF,       \* filter grid 0..MaxF
-          CfgSpace(_) \* run -> set of configuration records
+          CfgSpace(_), \* run -> set of configuration records
+          SimBias     \* TRUE only for -simulate runs that feed the replay drivers: biases random walks towards long runs
 
 Min2(a, b) == IF a <= b THEN a ELSE b
 Max2(a, b) == IF a >= b THEN a ELSE b
@@ -49,7 +50,7 @@ MCNewSolve(r) == pc[r] = "Idle" /\ Others(r) /\ \E c \in CfgSpace(r) : NewSolve(
 MCInit(r) ==
   /\ pc[r] = "Init"
   /\ \/ /\ inner[r].nev = 0
-        /\ \E ok \in BOOLEAN :
+        /\ \E ok \in (IF SimBias THEN {TRUE} ELSE BOOLEAN) :
              Eval(r, [comp |-> "obj", phase |-> "init", xid |-> cfg[r].start, inbox |-> TRUE, ok |-> ok, changed |-> <<>>])
      \/ /\ inner[r].nev > 0 /\ inner[r].fault
         /\ Raise(r, [kind |-> "InitEval", changed |-> <<>>])
@@ -62,8 +63,13 @@ Tick(r, site) ==
   LET t == clk[r].t + 1 IN
   Clock(r, [site |-> site, t |-> t, expired |-> (cfg[r].deadline # NoDeadline /\ t >= cfg[r].deadline)])
 
-ObsSpace == {[opt |-> o, infeas |-> i, unb |-> u] :
+ObsSpace0 == {[opt |-> o, infeas |-> i, unb |-> u] :
                <<o, i, u>> \in {<<FALSE, FALSE, FALSE>>, <<TRUE, FALSE, FALSE>>, <<FALSE, TRUE, FALSE>>, <<FALSE, FALSE, TRUE>>}}
+(* simulation bias: several copies of the "no terminal condition" observation (the pad field is ignored everywhere) *)
+ObsSpace == IF SimBias
+            THEN {[opt |-> FALSE, infeas |-> FALSE, unb |-> FALSE, pad |-> p] : p \in 1..6}
+                 \cup {[opt |-> o.opt, infeas |-> o.infeas, unb |-> o.unb, pad |-> 0] : o \in ObsSpace0}
+            ELSE ObsSpace0
 
 MCTop(r) ==
   LET lim == cfg[r].limit # NoLimit /\ iter[r] >= cfg[r].limit
@@ -91,7 +97,7 @@ MCInTrial(r) ==
       stopped == inner[r].fault \/ inner[r].dl
       needRead == cfg[r].ctl = "Exact" /\ inner[r].rd < inner[r].k IN
   /\ pc[r] = "InTrial"
-  /\ \/ /\ ~stopped /\ ~needRead /\ inner[r].nev = 0
+  /\ \/ /\ ~stopped /\ ~needRead /\ inner[r].nev = 0 /\ ~SimBias
         /\ \E ok \in BOOLEAN :
              Eval(r, [comp |-> "cons", phase |-> "trial", xid |-> NextId, inbox |-> TRUE, ok |-> ok, changed |-> <<>>])
      \/ /\ ~stopped /\ ~needRead /\ inner[r].ls = 0
